@@ -366,6 +366,14 @@ def construct(fr, cls, args, kw, extra, n):
 
 # ---------------------------------------------------------------------------------------------- builtins
 def builtin(fr, name, n):
+    if name == 'map' and len(n.args) == 2 and not n.keywords and isinstance(n.args[0], ast.Name) and n.args[0].id in ('list', 'tuple', 'int', 'float', 'len') \
+            and n.args[0].id not in fr.env:
+        # map(f, it) for a builtin f == (f(x) for x in it): the comprehension's normal form
+        comp = ast.GeneratorExp(elt=ast.Call(func=n.args[0], args=[ast.Name('_map_x', ast.Load())], keywords=[]),
+                                generators=[ast.comprehension(target=ast.Name('_map_x', ast.Store()), iter=n.args[1], ifs=[], is_async=0)])
+        ast.copy_location(comp, n)
+        ast.fix_missing_locations(comp)
+        return fr.ex(comp)
     args = args_of(fr, n)
     kw, extra = kwargs_of(fr, n)
     return builtin_value(fr, name, args, kw, n)
@@ -781,6 +789,8 @@ def external(fr, dotted, args, kw, extra, n):
         return T.band(args) if dotted.endswith('and_') else T.bor(args)
     if dotted == 'itertools.product':
         return T.call('product', args, kw)
+    if dotted == 'itertools.repeat' and len(args) == 2 and not kw:
+        return T.call('seqrepeat', (('list', (args[0],)), args[1]))      # repeat(x, n) yields what [x] * n holds
     if dotted == 'itertools.cycle':
         return ('cycleiter', a0)
     if dotted == 'multiprocessing.cpu_count':
